@@ -43,6 +43,13 @@ let run_op (op : string) (args : string list) : string =
   | "toio", [ v; limit; flush ] ->
     let lim = if limit = "-" then None else Some (nat_of_int (int_of_string limit)) in
     string_of_res hex_of_bytes (to_io (value_of_sexp (parse_sexp v)) lim (flush = "1"))
+  | "toioc", [ v; events; flush ] ->
+    let ev e =
+      if e = "i" then WrInterrupted else if e = "z" then WrZero else if e = "f" then WrFail
+      else if String.length e > 1 && e.[0] = 't' then WrTake (nat_of_int (int_of_string (String.sub e 1 (String.length e - 1))))
+      else failwith ("bad write event " ^ e) in
+    let sched = if events = "-" then [] else List.map ev (String.split_on_char ',' events) in
+    string_of_res hex_of_bytes (to_io_c (value_of_sexp (parse_sexp v)) sched (flush = "1"))
   | "size", [ v ] -> string_of_res (fun n -> string_of_int (int_of_n n)) (serialized_size (value_of_sexp (parse_sexp v)))
   | "toslice_cobs", [ v; cap ] ->
     let buf = List.init (int_of_string cap) (fun _ -> canary) in
